@@ -1,7 +1,8 @@
 // C27 — Mempool resource and topology limits always hold.
 // poolsim exploration under small limits, two node configurations:
 //   "_full": max_size_bytes 16000 with the pool pre-filled to 2 kB below the limit, cluster limits 4 txs / 400 vB
-//            (size-limit eviction, rolling minimum fee, cluster size limit);
+//            (size-limit eviction, rolling minimum fee, cluster size limit); packages both with a parent that needs its
+//            child (CPFP, multi-transaction path) and with members that are each acceptable on their own;
 //   "_topo": cluster limits 3 txs and 1200 vB, TRUC parents / children / siblings incl. children
 //            padded to exactly 1000 / 1001 vB, ephemeral-dust packages, dust txs with prioritisation, cluster joins.
 // Oracle after every transaction / package acceptance (independent recomputation from infoAll()):
@@ -253,7 +254,9 @@ int main(int argc, char** argv)
         f.guarded = false;
         f.fees = "mh";
         f.child_fees = "h";
-        f.pk_parent = "l"; f.pk_child = "k";
+        // two package shapes: parent below minrelay (goes through the multi-transaction path) and parent paying 10x
+        // minrelay (every member is accepted on its own through the single-in-package path, which never trims itself)
+        f.pk_parent = "lh"; f.pk_child = "k";
         f.max_idx = 2;
         f.prio_minus = false; f.prio_next = false;
         f.depth_quick = 2; f.depth_thorough = 3;
